@@ -174,6 +174,7 @@ def run(ctx):
         # …and the reuse veto for the old EOF token must look to the end of the file (shared with C01.P6)
         import C01
         C01.rule_saturation(ctx, F)
+        C01.rule_window_start(ctx, F)
     rust_half(ctx)
     return ctx.finish(
         "Gate and wiring rules over lexer.c/tree.c/parser.c (+ the Rust setter): a range list is installed only after every element passed both ordering tests; "
